@@ -35,7 +35,7 @@ def run_impl(lines):
     env = dict(vlib.ENV)
     env["CARGO_MANIFEST_DIR"] = os.path.join(vlib.VERIF, "harness", "gen")
     out = [None] * len(lines)
-    groups = {"ir": [], "grp": [], "prog": [], "rt": []}
+    groups = {"ir": [], "fwd": [], "grp": [], "prog": [], "rt": []}
     lint = []
     layp = []
     for i, l in enumerate(lines):
@@ -46,7 +46,7 @@ def run_impl(lines):
         if m in (20, 120, 220, 221, 222):
             layp.append(i)
             continue
-        groups["ir" if m == 1 else "grp" if m in (4, 204) else "rt" if (10 <= m <= 19 or m == 21) else "prog"].append(i)
+        groups["ir" if m == 1 else "fwd" if m == 201 else "grp" if m in (4, 204) else "rt" if (10 <= m <= 19 or m == 21) else "prog"].append(i)
     if layp:
         res = layout_probe([lines[i] for i in layp])
         for j, i in enumerate(layp):
@@ -233,6 +233,25 @@ def generic_cases(rng, tier):
                 ops.append([c])
         cases.append("102 %d | %s" % (rng.below(3), " ; ".join(" ".join(map(str, o)) for o in ops)))
     return cases, {"generic_trait_histories": len(cases)}
+
+
+def fwd_ir_cases(rng, tier):
+    """'201 <ti> <generic> | methods': the impl that the REAL #[cglue_forward] generator emits for Fwd<O>, abstracted per method (harness/gen fwd)"""
+    base, _ = ir_cases(rng, "quick")
+    out = []
+    for c in base:
+        hdr, body = c.split("|", 1)
+        h = hdr.split()
+        # by-value methods cannot be forwarded unless they have a default body; the renderer gives vtbl_only ones a body
+        rows = [[int(x) for x in r.split()] for r in body.split(";") if r.strip()]
+        if any((r[0] & 3) == 2 and not (r[1] & 4) and not (r[0] & 4) for r in rows):
+            for r in rows:
+                if (r[0] & 3) == 2:
+                    r[1] |= 4
+        out.append("201 %s | %s" % (" ".join(h[1:]), " ; ".join(" ".join(map(str, r)) for r in rows)))
+    if tier == "quick":
+        out = out[::7] + out[-160:]
+    return out, {"forward_impl_traits": len(out)}
 
 
 def fwd_cases(rng, tier):
